@@ -9,7 +9,7 @@
 (*                                                                           *)
 (* The grammar follows what accelforge's model emits for action counts,      *)
 (* occupancies and latencies, and what differentiating those gives:          *)
-(*   atom    ::= s | c | 1/s | s^2 | ceil(N/s) | ceil(s/s') | (8 - s)        *)
+(*   atom    ::= s | c | 1/s | s^2 | s/s' | ceil(N/s) | ceil(s/s') | (8 - s)  *)
 (*             | Max(s, c) | Max(s, 2 s') | Min(s, c) | Min(s, 2 s')         *)
 (*   term    ::= q * atom [* atom [* atom]]          q in {1, 1/2, 3, 1/8}   *)
 (*   formula ::= term | -term | term + term | term - term | term + term + c  *)
@@ -49,8 +49,9 @@ Consts == {1, 2, 3, 8}
 (* variable n as a (otherwise unused) argument: TLC evaluates constant-level  *)
 (* definitions once, which would freeze the draw.                             *)
 RSym(x) == S(RandomElement(1..NS))
-RAtom(x) ==
-  LET k == RandomElement(0..11) s == RSym(x) s2 == RSym(x) c == RandomElement(Consts) IN
+\* plain atoms (no Min/Max); mm = TRUE also allows a Min/Max atom
+RAtom(x, mm) ==
+  LET k == RandomElement(IF mm THEN 0..12 ELSE 0..8) s == RSym(x) s2 == RSym(x) c == RandomElement(Consts) IN
   CASE k \in {0, 1} -> s
     [] k = 2  -> I(c)
     [] k = 3  -> Pw(s, -1)
@@ -58,31 +59,37 @@ RAtom(x) ==
     [] k = 5  -> IF s = s2 THEN Pw(s, 2) ELSE Ce(Mul(<<s, Pw(s2, -1)>>))
     [] k = 6  -> Add(<<I(8), Neg(s)>>)
     [] k = 7  -> Pw(s, 2)
-    [] k = 8  -> Mx(<<s, I(c)>>)
-    [] k = 9  -> IF s = s2 THEN Mx(<<s, I(c)>>) ELSE Mx(<<s, Mul(<<I(2), s2>>)>>)
-    [] k = 10 -> Mn(<<s, I(c)>>)
-    [] k = 11 -> IF s = s2 THEN Mn(<<s, I(c)>>) ELSE Mn(<<s, Mul(<<I(2), s2>>)>>)
+    [] k = 8  -> IF s = s2 THEN Pw(s, -1) ELSE Mul(<<s, Pw(s2, -1)>>)
+    [] k = 9  -> Mx(<<s, I(c)>>)
+    [] k = 10 -> IF s = s2 THEN Mx(<<s, I(c)>>) ELSE Mx(<<s, Mul(<<I(2), s2>>)>>)
+    [] k = 11 -> Mn(<<s, I(c)>>)
+    [] k = 12 -> IF s = s2 THEN Mn(<<s, I(c)>>) ELSE Mn(<<s, Mul(<<I(2), s2>>)>>)
 
-RECURSIVE RAtoms(_, _)
-RAtoms(x, k) == IF k = 0 THEN <<>> ELSE Append(RAtoms(x, k - 1), RAtom(x))
-RTerm(x) == LET q == RandomElement(Coefs) k == RandomElement(1..3) IN
-            IF q = <<1, 1>> /\ k = 1 THEN RAtom(x)
-            ELSE Mul(IF q = <<1, 1>> THEN RAtoms(x, k) ELSE <<Q(q[1], q[2])>> \o RAtoms(x, k))
+RECURSIVE RAtoms(_, _, _)
+RAtoms(x, mm, k) == IF k = 0 THEN <<>> ELSE Append(RAtoms(x, mm, k - 1), RAtom(x, mm))
+RTermG(x, mm) ==
+  LET q == RandomElement(Coefs) k == RandomElement(1..3) IN
+  IF q = <<1, 1>> /\ k = 1 THEN RAtom(x, mm)
+  ELSE Mul(IF q = <<1, 1>> THEN RAtoms(x, mm, k) ELSE <<Q(q[1], q[2])>> \o RAtoms(x, mm, k))
+RTerm(x)  == RTermG(x, TRUE)      \* may contain one level of Min/Max atoms
+RPlain(x) == RTermG(x, FALSE)     \* used inside Max(...)/Min(...) so that they do not nest
 
 RFormula(x) ==
-  LET k == RandomElement(0..11) IN
+  LET k == RandomElement(0..13) IN
   CASE k = 0  -> RTerm(x)
     [] k = 1  -> Add(<<RTerm(x), RTerm(x)>>)
     [] k = 2  -> Add(<<RTerm(x), Neg(RTerm(x))>>)
-    [] k = 3  -> Mx(<<RTerm(x), RTerm(x)>>)
-    [] k = 4  -> Mn(<<RTerm(x), Add(<<RTerm(x), RTerm(x)>>)>>)
-    [] k = 5  -> Add(<<Mul(<<RTerm(x), Mx(<<RTerm(x), RTerm(x)>>)>>), Neg(RTerm(x))>>)
+    [] k = 3  -> Mx(<<RPlain(x), RPlain(x)>>)
+    [] k = 4  -> Mn(<<RPlain(x), Add(<<RPlain(x), RPlain(x)>>)>>)
+    [] k = 5  -> Add(<<Mul(<<RPlain(x), Mx(<<RPlain(x), RPlain(x)>>)>>), Neg(RPlain(x))>>)
     [] k = 6  -> Neg(RTerm(x))
-    [] k = 7  -> Add(<<RTerm(x), RTerm(x), I(RandomElement(Consts))>>)
-    [] k = 8  -> Add(<<Mx(<<RTerm(x), RTerm(x)>>), Neg(Mx(<<RTerm(x), RTerm(x)>>))>>)
-    [] k = 9  -> Mul(<<I(-1), Pw(RSym(x), -2), RTerm(x)>>)
-    [] k = 10 -> Mx(<<RTerm(x), RTerm(x), I(RandomElement(Consts))>>)
+    [] k = 7  -> Add(<<RTerm(x), RPlain(x), I(RandomElement(Consts))>>)
+    [] k = 8  -> Add(<<Mx(<<RPlain(x), RPlain(x)>>), Neg(Mx(<<RPlain(x), RPlain(x)>>))>>)
+    [] k = 9  -> Mul(<<I(-1), Pw(RSym(x), -2), RPlain(x)>>)
+    [] k = 10 -> Mx(<<RPlain(x), RPlain(x), I(RandomElement(Consts))>>)
     [] k = 11 -> Add(<<RTerm(x), Neg(I(RandomElement(Consts)))>>)
+    [] k = 12 -> Add(<<RPlain(x), RPlain(x)>>)
+    [] k = 13 -> Add(<<I(RandomElement(Consts)), Neg(RPlain(x))>>)
 
 RBox(x) == [i \in 1..NS |-> [lo |-> RandomElement(Los), hi |-> RandomElement(His)]]
 
